@@ -138,6 +138,19 @@ def run_case(r, seed, name, label, cfg, profile, kwlen, relation, cache=None):
             kind = sse.classify_diff(name, got, db[w])
             r.v(PROPERTY, name, 'result-differs', kind, dict(case, keyword=w), db[w], got)
             r.outcome('result-differs/' + kind)
+    if N <= 4 and db:
+        # the keyword handed over as another bytes-like object (bytearray, memoryview): refused, or the same answer
+        w0 = list(db)[0]
+        for mk in (bytearray, memoryview):
+            try:
+                got = scheme.Search(edb, scheme.TokenGen(key, mk(w0))).get_result_list()
+            except Exception:
+                r.count('bytes-like-keyword-refused')
+                continue
+            r.count('bytes-like-keyword-accepted')
+            r['transitions'] += 2
+            if not sse.result_ok(name, got, db[w0]):
+                r.v(PROPERTY, name, 'result-differs', 'keyword-as-%s/%s' % (mk.__name__, sse.classify_diff(name, got, db[w0])), dict(case, keyword=w0), db[w0], got)
     if N <= 7 and cache is not None:
         # the database changes (every list loses its last posting or gets a new one, one keyword is replaced) and is encrypted
         # again under the SAME key by the same scheme object; both indexes must answer from their own database
